@@ -7,7 +7,7 @@ PID = "C08"
 
 def run(tier: str, seed: int) -> Report:
     sc = c08.scope(tier)
-    rep = Report(property_id=PID, level="exploration")
+    rep = Report(property_id=PID, level="other")
     rep.exhaustive = False
     rep.rule = (
         "evaluations = (pipeline prefix, data set, back end): every prefix (0..n steps, i.e. every intermediate node) of every chain "
